@@ -271,8 +271,109 @@ def flatten(ctx):
     ctx.ob('FLATTEN', loc, 'Step column presence is asserted before merging', len(asserts) == 1 and asserts[0].lineno < (md[0].lineno if md else 0), node=fn)
 
 
+RUN = 'atomman/lammps/run.py'
+
+
+def restart(ctx):
+    """run(): which log files are read back, in which order, on a model file system"""
+    from ..symx import PyStub, Opaque, WouldRaise, module_aliases
+    from ..core import AnalysisError
+    fn = ctx.fn(RUN, 'run')
+    loc = RUN + '::run'
+
+    def scenario(files, screen, restart=True, logfile='log.lammps'):
+        fs = set(files)
+        renames, reads = [], []
+
+        class FP(PyStub):
+            def __init__(self, name=''):
+                self.name = str(name)
+
+            def is_file(self):
+                return self.name in fs
+
+            @property
+            def stem(self):
+                return self.name.rsplit('.', 1)[0] if '.' in self.name else self.name
+
+            @property
+            def suffix(self):
+                return '.' + self.name.rsplit('.', 1)[1] if '.' in self.name else ''
+
+            def rename(self, new):
+                new = str(new)
+                renames.append((self.name, new))
+                fs.discard(self.name)
+                fs.add(new)
+
+            def glob(self, pat):
+                import fnmatch
+                return [FP(f) for f in sorted(fs) if fnmatch.fnmatch(f, pat)]
+
+            def as_posix(self):
+                return self.name
+
+            def __str__(self):
+                return self.name
+
+            def __eq__(self, o):
+                return str(o) == self.name
+
+            def __ne__(self, o):
+                return str(o) != self.name
+
+            def __hash__(self):
+                return hash(self.name)
+
+            def __format__(self, spec):
+                return self.name
+
+        class Out(PyStub):
+            stdout = 'STDOUT-OF-THIS-RUN'
+
+        class Sub(PyStub):
+            CalledProcessError = 'CalledProcessError'
+
+            def run(self, command, **kw):
+                fs.add(logfile)          # LAMMPS writes the new log file
+                return Out()
+
+        class Shlex(PyStub):
+            def split(self, c):
+                return str(c).split()
+
+        class LogStub(PyStub):
+            def read(self, what, **kw):
+                reads.append(str(what))
+        ev = SymEval(module_aliases(ctx.mod(RUN)))
+        ev.globals = {'Path': FP, 'subprocess': Sub(), 'shlex': Shlex(), 'Log': LogStub, 'LammpsError': 'LammpsError', 'int': int, 'str': str}
+        kw = dict(script_name='in.lmp', logfile=logfile, screen=screen)
+        if restart:
+            kw['restart_script_name'] = 'restart.lmp'
+        try:
+            paths = ev.run_fn(fn, ['lmp'], kw)
+        except WouldRaise as e:
+            return None, renames, 'raises: %s' % e
+        except Opaque as e:
+            raise AnalysisError('run() on the model file system: %s' % e)
+        if len([q for q in paths if q.done == 'return']) != 1:
+            return None, renames, 'no single returning path'
+        return reads, renames, ''
+    cases = [('first restart (one earlier attempt)', ['log.lammps'], True, True, [('log.lammps', 'log-1.lammps')], ['log-1.lammps', 'STDOUT-OF-THIS-RUN']),
+             ('third restart, log file read back', ['log.lammps', 'log-1.lammps', 'log-2.lammps'], False, True, [('log.lammps', 'log-3.lammps')], ['log-1.lammps', 'log-2.lammps', 'log-3.lammps', 'log.lammps']),
+             ('eleventh restart (numbering, not name order)', ['log.lammps'] + ['log-%d.lammps' % i for i in range(1, 11)], True, True, [('log.lammps', 'log-11.lammps')],
+              ['log-%d.lammps' % i for i in range(1, 12)] + ['STDOUT-OF-THIS-RUN']),
+             ('restart script given but nothing ran before', [], True, True, [], ['STDOUT-OF-THIS-RUN']),
+             ('no restart script', ['log.lammps'], False, False, [], ['log.lammps'])]
+    for tag, files, screen, rs, want_ren, want_reads in cases:
+        reads, renames, why = scenario(files, screen, restart=rs)
+        ctx.ob('RESTART', loc, '%s: the previous log is renamed to the next free number and the returned Log reads every earlier attempt in order, then the current run' % tag,
+               reads == want_reads and renames == want_ren, why or 'renames %s, reads %s' % (renames, reads), node=fn, key='restart ' + tag)
+    ctx.floor('RESTART', len(cases), 5)
+
+
 def run(ctx):
     ctx.explanation = ('C19: structural obligations on the log reader: library-API compatibility of every pandas call against the installed pandas; '
                        'integer-affine accounting of header/footer line numbers over non-blank lines; trigger strings and banner slices; append semantics; '
                        'the three flatten merge rules. Not decided: that pandas parses each printed number to the same value.')
-    ctx.run_rules([api, line_account, triggers, append_sem, flatten])
+    ctx.run_rules([api, line_account, triggers, append_sem, flatten, restart])
